@@ -200,6 +200,9 @@ func Verif_C05_HTTPFlood() {
 	setsTrailer := zv.Bool("handler-sets-trailer")
 	handlerFails := zv.Bool("handler-fails")
 	mtd := []string{"S", "C"}[zv.Choose("method", 2)]
+	// a caller that has consumed the outcome need not half-close or cancel: the
+	// library's goroutines must be gone all the same
+	halfCloses := zv.Bool("client-half-closes-and-cancels-at-the-end")
 	hooks := &verifHooks{}
 	var handlerDone int32
 	hooks.Stream = func(tag string, ss grpc.ServerStream) error {
@@ -233,7 +236,11 @@ func Verif_C05_HTTPFlood() {
 	// for the client, which a connection does not.)
 	st.buffered = true
 	ctx, cancel := context.WithCancel(context.Background())
-	defer cancel()
+	defer func() {
+		if halfCloses {
+			cancel()
+		}
+	}()
 	cs, err := ch.NewStream(ctx, zzfix.StreamDescOf(mtd), "/a/"+mtd)
 	if err != nil {
 		zv.Fail("stream-created")
@@ -245,7 +252,9 @@ func Verif_C05_HTTPFlood() {
 		if atomic.LoadInt32(&handlerDone) != 0 && atomic.LoadInt32(&clientFinished) == 0 {
 			zv.Fail("client-operation-blocked-after-the-handler-returned")
 		}
-		cancel()
+		if halfCloses || atomic.LoadInt32(&clientFinished) == 0 {
+			cancel()
+		}
 	})
 	for i := 0; i < sends; i++ {
 		e := cs.SendMsg(&verifMsg{Count: int32(i)})
@@ -254,7 +263,9 @@ func Verif_C05_HTTPFlood() {
 		}
 		zv.Assert(e == nil || e == io.EOF, "send-returns-nil-or-EOF")
 	}
-	zv.Assert(cs.CloseSend() == nil, "close-send-succeeds")
+	if halfCloses {
+		zv.Assert(cs.CloseSend() == nil, "close-send-succeeds")
+	}
 	var final error
 	for i := 0; i < 3; i++ {
 		if final = cs.RecvMsg(&verifMsg{}); final != nil {
